@@ -31,45 +31,56 @@ theorem noMsg_end : NoMsg [.endChunk] := by intro e he; simp at he; subst he; rf
 theorem dataEv_no_msg (bs : Bytes) : NoMsg (dataEv bs) := by
   unfold dataEv NoMsg; split <;> simp [Ev.isMsg]
 
+/-- a continuation that adds no message events -/
+def KNoMsg (k : LoopK) : Prop := ∀ p c evs, NoMsg evs → NoMsg (k p c evs).2
+
+theorem chunkEofStep_no_msg (cfg : Cfg) (k : LoopK) (hk : KNoMsg k) : KNoMsg (chunkEofStep cfg k) := by
+  intro p chunk evs h
+  unfold chunkEofStep
+  simp only []
+  repeat' split
+  all_goals first | exact hk _ _ _ h | exact h
+
+theorem trailersStep_no_msg (cfg : Cfg) (k : LoopK) (hk : KNoMsg k) : KNoMsg (trailersStep cfg k) := by
+  intro p chunk evs h
+  unfold trailersStep
+  simp only []
+  repeat' split
+  all_goals first | exact hk _ _ _ h | exact h | exact noMsg_append h noMsg_eof
+
+theorem chunkStep_no_msg (cfg : Cfg) (k : LoopK) (hk : KNoMsg k) : KNoMsg (chunkStep cfg k) := by
+  intro p chunk evs h
+  unfold chunkStep
+  simp only []
+  have h1 : NoMsg (evs ++ dataEv (chunk.take p.chunkSize)) := noMsg_append h (dataEv_no_msg _)
+  split
+  · exact h1
+  · exact chunkEofStep_no_msg cfg k hk _ _ _ (noMsg_append h1 noMsg_end)
+
+theorem sizeStep_no_msg (cfg : Cfg) (k : LoopK) (hk : KNoMsg k) : KNoMsg (sizeStep cfg k) := by
+  intro p chunk evs h
+  unfold sizeStep
+  simp only []
+  repeat' split
+  all_goals first
+    | exact h
+    | exact trailersStep_no_msg cfg k hk _ _ _ h
+    | exact chunkStep_no_msg cfg k hk _ _ _ (noMsg_append h noMsg_begin)
+
 /-- the chunked body parser never emits message events -/
-theorem chunkedLoop_no_msg (cfg : Cfg) : ∀ (fuel : Nat) (p : PState) (chunk : Bytes) (evs : List Ev),
-    NoMsg evs → NoMsg (chunkedLoop cfg fuel p chunk evs).2 := by
+theorem chunkedLoop_no_msg (cfg : Cfg) : ∀ (fuel : Nat), KNoMsg (chunkedLoop cfg fuel) := by
   intro fuel
   induction fuel with
   | zero => intro p chunk evs h; simpa [chunkedLoop] using h
   | succ n ih =>
     intro p chunk evs h
-    have hEof : ∀ (p : PState) (chunk : Bytes) (evs : List Ev), NoMsg evs →
-        NoMsg (chunkedLoop.chunkEofStep cfg n p chunk evs).2 := by
-      intro p chunk evs h
-      unfold chunkedLoop.chunkEofStep
-      simp only []
-      repeat' split
-      all_goals first | exact ih _ _ _ h | exact h
-    have hTr : ∀ (p : PState) (chunk : Bytes) (evs : List Ev), NoMsg evs →
-        NoMsg (chunkedLoop.trailersStep cfg n p chunk evs).2 := by
-      intro p chunk evs h
-      unfold chunkedLoop.trailersStep
-      simp only []
-      repeat' split
-      all_goals first | exact ih _ _ _ h | exact h | exact noMsg_append h noMsg_eof
-    have hCh : ∀ (p : PState) (chunk : Bytes) (evs : List Ev), NoMsg evs →
-        NoMsg (chunkedLoop.chunkStep cfg n p chunk evs).2 := by
-      intro p chunk evs h
-      unfold chunkedLoop.chunkStep
-      simp only []
-      have h1 : NoMsg (evs ++ dataEv (chunk.take p.chunkSize)) := noMsg_append h (dataEv_no_msg _)
-      split
-      · exact h1
-      · exact hEof _ _ _ (noMsg_append h1 noMsg_end)
     rw [chunkedLoop]
-    repeat' (first | split | (dsimp only; split))
-    all_goals first
-      | exact h
-      | exact hTr _ _ _ h
-      | exact hCh _ _ _ h
-      | exact hEof _ _ _ h
-      | exact hCh _ _ _ (noMsg_append h noMsg_begin)
+    repeat' split
+    · exact h
+    · exact sizeStep_no_msg cfg _ ih _ _ _ h
+    · exact chunkStep_no_msg cfg _ ih _ _ _ h
+    · exact chunkEofStep_no_msg cfg _ ih _ _ _ h
+    · exact trailersStep_no_msg cfg _ ih _ _ _ h
 
 theorem payloadFeed_no_msg (cfg : Cfg) (p : PState) (chunk : Bytes) :
     NoMsg (payloadFeed cfg p chunk).2 := by
